@@ -6,6 +6,7 @@ from typing import Any
 
 from jinja2 import Environment
 
+from xsdata.codegen.exceptions import CodegenError
 from xsdata.codegen.models import Attr, AttrType, Class
 from xsdata.codegen.utils import ClassUtils
 from xsdata.formats.converter import converter
@@ -90,6 +91,19 @@ class Filters:
         self.constant_safe_prefix: str = config.conventions.constant_name.safe_prefix
         self.package_safe_prefix: str = config.conventions.package_name.safe_prefix
         self.module_safe_prefix: str = config.conventions.module_name.safe_prefix
+        for prefix in (
+            self.class_safe_prefix,
+            self.field_safe_prefix,
+            self.constant_safe_prefix,
+            self.package_safe_prefix,
+            self.module_safe_prefix,
+        ):
+            # safe_name prepends the prefix until the slug starts with a letter
+            if not text.alnum(prefix)[:1].isalpha():
+                raise CodegenError(
+                    "Safe prefix must start with a letter", safe_prefix=prefix
+                )
+
         self.docstring_style: DocstringStyle = config.output.docstring_style
         self.max_line_length: int = config.output.max_line_length
         self.generic_collections: bool = config.output.generic_collections
